@@ -4,6 +4,7 @@ package main
 
 import (
 	"fmt"
+	"os"
 	"sync/atomic"
 	"time"
 
@@ -86,6 +87,17 @@ func hookReplays(cfg *Cfg) {
 		{id: "F10b-double-runtime-close", prefix: []Op{inst}, a: Op{Kind: "rtclose", Code: 1}, tag: "rtclose:after-cas",
 			bs: []Op{{Kind: "rtclose", Code: 2}, {Kind: "isclosed", H: 1}}},
 		{id: "F10c-notifier-lost", a: inst, tag: "instantiate:after-register", bs: []Op{{Kind: "rtclose", Code: 3}}},
+		// InstantiateModule paused between its failIfClosed read and the registration, while the runtime is
+		// closed completely: the registration must refuse (named, anonymous, host and precompiled alike)
+		{id: "inst-named-races-rtclose", a: inst, tag: "instantiate:after-failifclosed", bs: []Op{{Kind: "rtclose", Code: 4}}},
+		{id: "inst-anon-races-rtclose", a: Op{Kind: "inst", H: 1, Name: 0, Pre: "none"}, tag: "instantiate:after-failifclosed", bs: []Op{{Kind: "rtclose", Code: 4}}},
+		{id: "inst-anon-bin-races-rtclose", a: Op{Kind: "inst", H: 1, Name: 0, Pre: "bin"}, tag: "instantiate:after-failifclosed", bs: []Op{{Kind: "rtclose", Code: 4}}},
+		{id: "reg-named-races-rtclose", a: inst, tag: "instantiate:before-register", bs: []Op{{Kind: "rtclose", Code: 4}}},
+		{id: "reg-anon-races-rtclose", a: Op{Kind: "inst", H: 1, Name: 0, Pre: "none"}, tag: "instantiate:before-register", bs: []Op{{Kind: "rtclose", Code: 4}}},
+		{id: "reg-anon-bin-races-rtclose", a: Op{Kind: "inst", H: 1, Name: 0, Pre: "bin"}, tag: "instantiate:before-register", bs: []Op{{Kind: "rtclose", Code: 4}}},
+		{id: "reg-host-races-rtclose", a: Op{Kind: "inst", H: 1, Name: 2, Pre: "host"}, tag: "instantiate:before-register", bs: []Op{{Kind: "rtclose", Code: 4}}},
+		{id: "reg-races-instantiate-same-name", a: inst, tag: "instantiate:before-register", bs: []Op{{Kind: "inst", H: 2, Name: 1, Pre: "none"}, {Kind: "look", Name: 1}}},
+		{id: "inst-races-close-of-owner", prefix: []Op{inst}, a: Op{Kind: "inst", H: 2, Name: 1, Pre: "none"}, tag: "instantiate:after-failifclosed", bs: []Op{{Kind: "close", H: 1, Code: 1}, {Kind: "look", Name: 1}}},
 		{id: "F9b-compile-races-close", a: Op{Kind: "comp"}, tag: "compile:after-failifclosed", bs: []Op{{Kind: "rtclose", Code: 0}}},
 	}
 	type outcome struct{ lin, notified bool }
@@ -99,6 +111,11 @@ func hookReplays(cfg *Cfg) {
 				continue
 			}
 			lin := checkConc(w, c, *cfg, orc, 300000, "hook-replay:"+sc.id)
+			if os.Getenv("HC10_DEBUG") != "" {
+				for _, h := range c.History {
+					fmt.Fprintf(os.Stderr, "DEBUG %s %s t=%d inv=%d resp=%d %s -> %s\n", engine, sc.id, h.Thread, h.Inv, h.Resp, h.Op.Token(), h.Res)
+				}
+			}
 			notes, _, _ := w.effects(1)
 			rep.Count(fmt.Sprintf("hook-replay:%s:linearizable=%v:notified=%d", sc.id, lin, len(notes)))
 			o := res[sc.id]
